@@ -359,9 +359,9 @@ def role(st, d):
             if c[0] == 'col' and isinstance(c[1].get('type'), list) and c[1]['type'][0] == 'Interval' and d == 'mysql': return 'mysql-interval-type'
     return None
 
-def run(ctx, dialects=DIALECTS, families=('column', 'table', 'alter', 'index', 'fk')):
+def run(ctx, dialects=DIALECTS, families=('column', 'table', 'alter', 'index', 'fk'), deep=False):
     global ENG
-    quick = ctx.tier == 'quick'
+    quick = ctx.tier == 'quick' and not deep
     ENG = eng = ctx.engine()
     nat = ctx.nat()
     items = [(f, d, quick) for f in families for d in dialects]
